@@ -29,9 +29,14 @@ static __thread int mytid; static __thread uint64_t rng; static uint64_t seed;
 static inline uint64_t rnd(void){ if(!rng) rng = seed ^ (uint64_t)syscall(SYS_gettid)*0x9e3779b97f4a7c15ull; rng ^= rng<<13; rng ^= rng>>7; rng ^= rng<<17; return rng; }
 static void cb(const volatile void *addr, unsigned size, int op, uint64_t o, uint64_t n, const char *func, int line){ (void)size;(void)line;
   long d=(long)((dispatch_once_t*)addr-preds); if((char*)addr<(char*)preds || d>=rounds) return; if(!mytid) mytid=(int)syscall(SYS_gettid);
-  unsigned long k=atomic_fetch_add(&nev,1); if(k>=MAXEV) return; evs[k]=(ev_t){atomic_fetch_add(&seq,1),mytid,(int)d,op,o,n,func}; }
-static void ycb(const volatile void *addr, const char *func, int line){ (void)func;(void)line;
-  long d=(long)((dispatch_once_t*)addr-preds); if((char*)addr<(char*)preds || d>=rounds) return; uint64_t r=rnd()%6; if(r==0) sched_yield(); else if(r==1) usleep(rnd()%60); }
+  unsigned long k=atomic_fetch_add(&nev,1); if(k<MAXEV) evs[k]=(ev_t){atomic_fetch_add(&seq,1),mytid,(int)d,op,o,n,func};
+  // a waiter that has just published the waiters bit is held before it goes to sleep: the (short) initialiser of these rounds completes
+  // and wakes meanwhile - the waiter must not sleep on the completed gate
+  if(d%3==0 && op==3 && !strcmp(func,"_dispatch_once_wait") && rnd()%2) usleep((useconds_t)(100+rnd()%200)); }
+static void ycb(const volatile void *addr, const char *func, int line){ (void)line;
+  long d=(long)((dispatch_once_t*)addr-preds); if((char*)addr<(char*)preds || d>=rounds) return;
+  if(d%3==0 && !strcmp(func,"_dispatch_once_wait")){ if(rnd()%2) usleep((useconds_t)(rnd()%80)); return; }      // a waiter held for a moment at each of its steps: the initialiser (a short one in these rounds) completes meanwhile
+  uint64_t r=rnd()%6; if(r==0) sched_yield(); else if(r==1) usleep(rnd()%60); }
 // the environment of the waiters: a FUTEX_WAIT may return 0 without a matching wake (futex(2): spurious wake-ups), and a signal
 // whose handler was installed without SA_RESTART interrupts it; neither means that the initialiser has completed
 static long (*real_syscall)(long, ...); static int inject; static atomic_long spurious, pings;
@@ -44,7 +49,8 @@ static atomic_int viol; static char vmsg[300];
 static void fail(const char *m, long a, long b, long c){ if(!atomic_exchange(&viol,1)) snprintf(vmsg,sizeof vmsg,"%s %ld %ld %ld",m,a,b,c); }
 struct round { _Atomic int inits; _Atomic int init_done; _Atomic int returned; _Atomic int release; int n; pthread_barrier_t bar; int idx; };
 static void initfn(void *c){ struct round *r=c; if(atomic_fetch_add(&r->inits,1)) fail("initialiser executed more than once: round",r->idx,0,0);
-  if(rnd()%2) usleep(rnd()%300); else if(rnd()%4==0) usleep(500+rnd()%1500); else sched_yield(); atomic_store(&r->init_done,1); }
+  if(r->idx%3==0){ usleep((useconds_t)(20+rnd()%60)); }      // every third round: an initialiser of 20-80 us - waiters arrive while it runs and are held (see cb) until it is over
+  else if(rnd()%2) usleep(rnd()%300); else if(rnd()%4==0) usleep(500+rnd()%1500); else sched_yield(); atomic_store(&r->init_done,1); }
 static void *racer(void *c){ struct round *r=c; pthread_barrier_wait(&r->bar); if(rnd()%3==0) usleep(rnd()%100);
   dispatch_once_f(&preds[r->idx], r, initfn);
   if(!atomic_load(&r->init_done)) fail("dispatch_once returned before the initialiser had completed: round",r->idx,0,0);
